@@ -63,9 +63,8 @@ Definition targ_array (t : targ) (n : Z) : list Z :=
   match t with PerCh a => a | Scalar v => bcast v n end.
 
 (* ---------- record links ---------- *)
-(* channels are non-negative; a continuing fragment never sits at time 0 (see
-   C18_record_links_time0_refuted for what happens otherwise) *)
-Definition rec_wf (r : rec) : Prop := 0 <= r_ch r /\ (r_reci r <> 0 -> r_time r <> 0).
+(* channels are non-negative (record_links raises ValueError otherwise) *)
+Definition rec_wf (r : rec) : Prop := 0 <= r_ch r.
 
 Definition rec_at (rs : list rec) (i : Z) : rec :=
   nth (Z.to_nat i) rs (mkrec 0 0 0 0 0 0 0 0 0 0 0 []).
